@@ -647,6 +647,23 @@ class Concatenate(GenericType):
 class Literal(Type):
   value: int | str | bool | TypeU | Constant
 
+  # Literal[1] and Literal[True] are different types although 1 == True.
+
+  def __eq__(self, other):
+    if self is other:
+      return True
+    return (
+        isinstance(other, Literal)
+        and self.value.__class__ is other.value.__class__
+        and self.value == other.value
+    )
+
+  def __ne__(self, other):
+    return not self == other
+
+  def __hash__(self):
+    return hash((self.value.__class__, self.value))
+
 
 class Annotated(Type):
   base_type: TypeU
